@@ -432,7 +432,8 @@ fn string_of(r: &Rec) -> Result<String, String> {
     String::from_utf8(d.to_vec()).map_err(|_| format!("record {} at byte {}: not UTF-8", rec_name(r.rt), r.off))
 }
 fn real_of(raw: u64, what: &str, off: usize) -> Result<u64, String> {
-    if !R::is_normalised(raw) {
+    // a leading zero digit is only legitimate at the smallest exponent, where it cannot be shifted away
+    if !R::is_normalised(raw) && (raw >> 56) & 0x7f != 0 {
         return Err(format!("{} at byte {}: real {:#018x} is not normalised", what, off, raw));
     }
     Ok(R::decode(raw).to_bits())
